@@ -259,12 +259,12 @@ def e2e_layout(rng, B, nmsgs, final_nl=True, long_lines=False, first_undated=0, 
     return lay
 
 
-def boundary_layout(rng, B, first_lines=1, nmsgs=25, notation="iso", continuation=False):
+def boundary_layout(rng, B, first_lines=1, nmsgs=25, notation="iso", continuation=False, shift=0):
     """The first `first_lines` one-line messages together end exactly on the last byte of a block of size B; the next
     line starts on byte 0 of the following block and is longer than a block."""
     lines, dated = [], []
     k = 0
-    remaining = B
+    remaining = B + shift      # (shift = 1: the newline that ends them is the FIRST byte of the next block)
     for j in range(first_lines):
         k += 1
         ln = ts_head(k, notation) + b" first"
